@@ -140,6 +140,7 @@ inline Circuit genCircuit(vh::Rng &g, const GenOpts &o, GenInfo *info = nullptr)
     int pw = g.range(1, 5), rowsHigh = 1;
     if (kind >= 7 && kind < 9) rowsHigh = g.range(2, 3);
     if (kind == 9) { rowsHigh = g.range(2, 4); pw = g.range(3, 8); }
+    if (rowsHigh > nRows && !g.chance(1, 10)) rowsHigh = g.range(1, nRows);
     int ph = rowsHigh * H;
     if (area + (long long)pw * ph > util * rowArea && !cells.empty()) break;
     area += (long long)pw * ph;
